@@ -105,7 +105,9 @@ pub fn cmd(a: &[String]) {
         }
         "Count" => emit(c::Count::new(filt())),
         "CountGrouped" => {
-            let mut x = c::CountGrouped::new(p.tag());
+            let t = p.tag();
+            if p.boolean() { emit(c::Count::new(filt()).group_by(t)); return; }
+            let mut x = c::CountGrouped::new(t);
             if p.boolean() { x = x.filter(filt()); }
             emit(x)
         }
